@@ -403,6 +403,14 @@ def run(ctx):
             R.both(fname, tuple(float(a) for a in args), 'error', 'domain',
                    (fname, 'outside', args), formula=True,
                    tags=('outside-domain',))
+        # finite results close to the largest double stay finite numbers
+        for args in ((10.0, 308.2), (1.2e154, 2.0), (-5e102, 3.0),
+                     (2.0, 1023.9), (1.5e308, 1.0), (10.0, 308.0),
+                     (2.0, 1023.0), (1.7e308, 1.0), (4.0, 511.9)):
+            w = mpmath.power(mpmath.mpf(args[0]), mpmath.mpf(args[1]))
+            want = float(w.real if hasattr(w, 'real') else w)
+            R.both('POWER', args, want, 'elementary',
+                   ('POWER', 'near-max', args), tol_ulp=16)
         # integer powers whose exact value has millions of digits: the answer
         # (#NUM!) must come at once
         for args in ((10, 10 ** 10), (7, 10 ** 9), (-3, 10 ** 9 + 1),
